@@ -81,7 +81,10 @@ pub fn run_c08(chk: &Check, tier: Tier) {
             chk.set("note_unexpected_state_count", json!(out.nodes.len()));
         }
         if tier.thorough() && out.found.is_empty() {
-            let r = xs::sr::run(std::sync::Arc::new(c08_system("C08", c, Report { oracle: true, ..Default::default() }, &all_values())), xs::n_threads());
+            let plain = c08_system("C08", c, Report { oracle: true, ..Default::default() }, &all_values());
+            let xs_plain = xs::explore(&plain, &Limits { restoration_check: false, ..Default::default() });
+            let r = xs::sr::run(std::sync::Arc::new(plain), xs::n_threads());
+            let out = &xs_plain;
             chk.push("stateright_cross_check", json!({"channel": c, "xs_states": out.nodes.len(), "stateright_unique_states": r.unique_states, "stateright_generated": r.generated, "stateright_violation": r.violation}));
             if r.unique_states != out.nodes.len() || r.violation {
                 chk.machinery_error(format!("stateright disagrees with xs on channel {}: {} vs {} states, violation={}", c, r.unique_states, out.nodes.len(), r.violation));
